@@ -23,6 +23,7 @@ type gpass struct {
 	roleCount map[string]int
 	flagSeen  map[string]bool
 	testsDir  string
+	infoByPath map[string]*types.Info
 
 	// per-verification context
 	cur     *closureCtx
